@@ -209,9 +209,9 @@ func procsCase(c *Case, lean *LeanDriver) Verdict {
 		v.Skipped = "not-native"
 		return v
 	}
-	if ans, q, err := leanInfo(c, lean, "ties"); err == nil {
+	if ans, q, err := leanInfo(c, lean, "tiesp"); err == nil {
 		v.Features = features(q)
-		if ans["ties"] == "1" {
+		if ans["tiesp"] == "1" {
 			v.Tie = true
 			return v
 		}
@@ -385,9 +385,9 @@ func distCase(c *Case, lean *LeanDriver) Verdict {
 			return v
 		}
 	}
-	if ans, q, err := leanInfo(c, lean, "ties"); err == nil {
+	if ans, q, err := leanInfo(c, lean, "tiesp"); err == nil {
 		v.Features = features(q)
-		if ans["ties"] == "1" {
+		if ans["tiesp"] == "1" {
 			v.Tie = true
 			return v
 		}
@@ -467,6 +467,10 @@ func fallbackCase(c *Case, lean *LeanDriver) Verdict {
 	prom := c.Exec(ctx, NewProm(c), NewMemStorage(c.Data()))
 	if perr != nil {
 		v.Skipped = "parse"
+		return v
+	}
+	if atInAggParam(expr) {
+		v.Skipped = "at-modifier-in-aggregation-parameter"
 		return v
 	}
 	promRejects := prom.Kind == "err" && strings.HasPrefix(prom.Err, "create: ")
